@@ -13,6 +13,7 @@ package main
 
 import (
 	"go/token"
+	"strings"
 
 	"golang.org/x/tools/go/ssa"
 )
@@ -220,4 +221,113 @@ func sameStmtsOwner(a, b ssa.Value) bool {
 	}
 	oa, ob := owner(a), owner(b)
 	return oa != nil && ob != nil && (oa == ob || sameValue(oa, ob))
+}
+
+// checkLiteralsPrintedVerbatim: rule C03.R6.
+//
+// Formatting is a fixpoint only if what the printer writes for a token is read back as the same token
+// text. The printers of package ast write Literal() as it is (strings go through strconv.Quote, which the
+// lexer undoes: C02.R4). A printer that rewrites the literal - re-indenting the lines of a block comment,
+// trimming, changing case - produces text whose literal is the rewritten one, and the next pass rewrites it
+// again. In package ast no result of a Literal() method reaches a text-transforming function of package
+// strings (Replace*, Trim*, To*, Map, Title, Fields, Split*, Join) or fmt.Sprintf.
+func (c *Ctx) checkLiteralsPrintedVerbatim(r *Report, rule string) {
+	transforming := func(name string) bool {
+		if name == "fmt.Sprintf" || name == "fmt.Sprint" {
+			return true
+		}
+		if !strings.HasPrefix(name, "strings.") {
+			return false
+		}
+		n := strings.TrimPrefix(name, "strings.")
+		for _, p := range []string{"Replace", "Trim", "To", "Map", "Title", "Fields", "Split", "Join"} {
+			if strings.HasPrefix(n, p) {
+				return true
+			}
+		}
+		return false
+	}
+	var fromLiteral func(v ssa.Value, depth int) bool
+	fromLiteral = func(v ssa.Value, depth int) bool {
+		if depth > 5 {
+			return false
+		}
+		switch x := v.(type) {
+		case *ssa.Call:
+			if callee := x.Common().StaticCallee(); callee != nil && callee.Name() == "Literal" {
+				return true
+			}
+			if x.Common().IsInvoke() && x.Common().Method.Name() == "Literal" {
+				return true
+			}
+		case *ssa.Phi:
+			for _, e := range x.Edges {
+				if fromLiteral(e, depth+1) {
+					return true
+				}
+			}
+		case *ssa.BinOp:
+			return fromLiteral(x.X, depth+1) || fromLiteral(x.Y, depth+1)
+		case *ssa.UnOp:
+			if al, ok := x.X.(*ssa.Alloc); ok {
+				for _, ref := range *al.Referrers() {
+					if st, ok := ref.(*ssa.Store); ok && st.Addr == ssa.Value(al) && fromLiteral(st.Val, depth+1) {
+						return true
+					}
+				}
+			}
+		case *ssa.MakeInterface:
+			return fromLiteral(x.X, depth+1)
+		case *ssa.Slice:
+			return fromLiteral(x.X, depth+1)
+		}
+		return false
+	}
+	nLit, bad := 0, 0
+	for _, fn := range c.ModuleSSAFuncs() {
+		if fn.Pkg == nil || shortPkg(fn.Pkg.Pkg) != "ast" {
+			continue
+		}
+		eachInstr(fn, func(in ssa.Instruction) {
+			call, ok := in.(*ssa.Call)
+			if !ok {
+				return
+			}
+			if callee := call.Common().StaticCallee(); callee != nil && callee.Name() == "Literal" {
+				nLit++
+			}
+			name := stdName(call)
+			if !transforming(name) {
+				return
+			}
+			for _, a := range call.Common().Args {
+				// variadic arguments are packed in a slice of a local array
+				derived := fromLiteral(a, 0)
+				if sl, ok := a.(*ssa.Slice); ok && !derived {
+					if al, ok := sl.X.(*ssa.Alloc); ok {
+						for _, ref := range *al.Referrers() {
+							if ia, ok := ref.(*ssa.IndexAddr); ok {
+								for _, r2 := range *ia.Referrers() {
+									if st, ok := r2.(*ssa.Store); ok && fromLiteral(st.Val, 0) {
+										derived = true
+									}
+								}
+							}
+						}
+					}
+				}
+				if derived {
+					bad++
+					r.Fail(rule, ssaFuncName(fn), "token text is not rewritten by "+name, c.Pos(call.Pos()),
+						"the text of a token (Literal()) goes through "+name+" before it is printed: the output is read back as a token with the rewritten text and rewritten again on the next pass, so formatting formatted text changes it (a re-indented block comment gains tabs on every pass)")
+				}
+			}
+		})
+	}
+	if bad == 0 {
+		r.Ok(rule, "ast", "no Literal() result reaches a text-transforming function", "")
+	}
+	if nLit < 10 {
+		r.Undecided("%s: only %d Literal() calls found in package ast", rule, nLit)
+	}
 }
